@@ -196,6 +196,18 @@ func (f *File) CodeSections(img []byte) (blocks []Block, bad string) {
 	return blocks, ""
 }
 
+// Wraps reports whether a non-empty block reaches the end of the address
+// space (its exclusive end is 2^64 or beyond). What a loader should do with
+// such a block is not stated anywhere; it is not judged beyond not crashing.
+func Wraps(bs []Block) bool {
+	for _, b := range bs {
+		if len(b.Bytes) > 0 && b.Addr+uint64(len(b.Bytes)) <= b.Addr {
+			return true
+		}
+	}
+	return false
+}
+
 // Overlap reports whether two non-empty blocks overlap.
 func Overlap(bs []Block) bool {
 	for i := range bs {
